@@ -104,3 +104,58 @@ def agenda_hook(fn):
         yield
     finally:
         C._VERIF_HOOKS.pop("agenda", None)
+
+
+@contextlib.contextmanager
+def agenda_summary(ctx, when=lambda cfg: True):
+    """Closed-form summary of CFG.agenda: the exact least solution when every SCC of the equation
+    system is linear (Cramer), OutOfBounds otherwise.  Its contract is what C08 checks.  Used only in
+    harnesses whose subject is not the agenda itself; `when(cfg)` lets finite systems run un-stubbed."""
+    import genlm.grammar.cfg as C
+    from . import oracle as O
+
+    orig = C.CFG.agenda
+    used = {"n": 0}
+
+    def agenda(self, tol=1e-12, maxiter=100_000):
+        if self.R is not ctx.D.R or not when(self):
+            return orig(self, tol=tol, maxiter=maxiter)
+        used["n"] += 1
+        rules = [(ctx.D.term(r.w), r.head, tuple(r.body)) for r in self.rules]
+        piv = []
+        Z = O.treesums(rules, set(self.V), ctx.num, piv)
+        for p in piv:
+            if ctx.symbolic:
+                E.ENG.hypothesis(p > 0)
+            elif not p > 0:
+                raise OverflowError("divergent system in concrete replay")
+        chart = self.R.chart()
+        for a in self.V:
+            chart[a] = self.R.one
+        for X, z in Z.items():
+            if not O.is_zero(z):
+                chart[X] = ctx.D.wrap(z, positive=True)
+        return chart
+
+    C.CFG.agenda = agenda
+    try:
+        yield used
+    finally:
+        C.CFG.agenda = orig
+
+
+def finite_system(cfg):
+    "does the grammar's equation system have finitely many derivations (dependency graph of the generating part acyclic)?"
+    from . import oracle as O
+
+    V = set(cfg.V)
+    live = [(r.head, tuple(r.body)) for r in cfg.rules]
+    gen = O.generating_set([(1, h, b) for h, b in live], V)
+    dep = {}
+    for h, b in live:
+        if h in gen and all(y in gen for y in b):
+            dep.setdefault(h, set()).update(y for y in b if y not in V)
+    for comp in O.sccs(list(dep), lambda x: dep.get(x, ())):
+        if len(comp) > 1 or comp[0] in dep.get(comp[0], ()):
+            return False
+    return True
